@@ -899,6 +899,13 @@ class Datetime(Formatter, asset=DATETIME_ASSET, config=DATETIME_CONF, level=10):
             else datetime(value.year, value.month, value.day)
         )
 
+    def __sub__(self, other: Any) -> Any:
+        # NOTE: the difference of two datetime formatters is a timedelta, the
+        #   same as the classic Datetime formatter gives.
+        if isinstance(other, self.__class__):
+            return self.value - other.value
+        return super().__sub__(other)
+
 
 __all__ = (
     "Formatter",
